@@ -1,7 +1,92 @@
-//! Generator mode: facts about strum_macros' own functions (engine G).
+//! Generator mode: facts about strum_macros' own functions (engine G): one HIR expression tree per
+//! fn (closures inline), with resolved callees and the type of every call / method-call expression,
+//! plus the `#[proc_macro_derive]` entry points.
+use crate::astfacts::AstFacts;
+use crate::hirfacts::{body_tree_typed, def_str, span_str};
 use crate::json::J;
+use rustc_hir as hir;
+use rustc_hir::attrs::AttributeKind;
 use rustc_middle::ty::TyCtxt;
 
-pub fn gen_fns<'tcx>(_tcx: TyCtxt<'tcx>) -> J {
-    J::Arr(Vec::new())
+pub fn gen_fns<'tcx>(tcx: TyCtxt<'tcx>, ast: &AstFacts) -> J {
+    let mut out = Vec::new();
+    let items = tcx.hir_crate_items(());
+    for id in items.free_items() {
+        let item = tcx.hir_item(id);
+        let did = id.owner_id.def_id;
+        match &item.kind {
+            hir::ItemKind::Fn { ident, body, .. } => {
+                let mut o = J::obj().set("path", def_str(tcx, did.to_def_id())).set("name", ident.name.as_str()).set("kind", "fn");
+                o.put("span", span_str(tcx, item.span));
+                let attrs = tcx.hir_attrs(item.hir_id());
+                let mut entry: Option<String> = None;
+                let mut deprecated = false;
+                for a in attrs {
+                    if let hir::Attribute::Parsed(AttributeKind::ProcMacroDerive { trait_name, .. }) = a {
+                        entry = Some(trait_name.as_str().to_string());
+                    }
+                    if let hir::Attribute::Parsed(AttributeKind::Deprecated { .. }) = a {
+                        deprecated = true;
+                    }
+                }
+                o.put("entry_derive", entry);
+                o.put("deprecated", deprecated);
+                o.put("in_test", in_cfg_test(tcx, did));
+                o.put("sig", crate::hirfacts::fn_sig_json(tcx, did.to_def_id()));
+                o.put("body", body_tree_typed(tcx, ast, did, *body));
+                out.push(o);
+            }
+            hir::ItemKind::Impl(imp) => {
+                let self_ty = rustc_hir_pretty::ty_to_string(&tcx, imp.self_ty);
+                let tr = imp.of_trait.map(|h| {
+                    let p = h.trait_ref.path;
+                    match p.res {
+                        hir::def::Res::Def(_, d) => def_str(tcx, d),
+                        _ => String::from("?"),
+                    }
+                });
+                for iid in imp.items {
+                    let ii = tcx.hir_impl_item(*iid);
+                    if let hir::ImplItemKind::Fn(_, body) = &ii.kind {
+                        let idid = ii.owner_id.def_id;
+                        let mut o = J::obj().set("path", def_str(tcx, idid.to_def_id())).set("name", ii.ident.name.as_str()).set("kind", "assoc_fn");
+                        o.put("span", span_str(tcx, ii.span));
+                        o.put("impl_self", self_ty.clone());
+                        o.put("impl_trait", tr.clone());
+                        o.put("entry_derive", J::Null);
+                        o.put("in_test", in_cfg_test(tcx, idid));
+                        o.put("sig", crate::hirfacts::fn_sig_json(tcx, idid.to_def_id()));
+                        o.put("body", body_tree_typed(tcx, ast, idid, *body));
+                        out.push(o);
+                    }
+                }
+            }
+            hir::ItemKind::Const(ident, _, ty, hir::ConstItemRhs::Body(b)) => {
+                let mut o = J::obj().set("path", def_str(tcx, did.to_def_id())).set("name", ident.name.as_str()).set("kind", "const");
+                o.put("ty", rustc_hir_pretty::ty_to_string(&tcx, ty));
+                o.put("in_test", in_cfg_test(tcx, did));
+                o.put("body", body_tree_typed(tcx, ast, did, *b));
+                out.push(o);
+            }
+            _ => {}
+        }
+    }
+    J::Arr(out)
+}
+
+/// Is the item inside a `#[cfg(test)] mod`? (under `--test` those are compiled in.)
+fn in_cfg_test<'tcx>(tcx: TyCtxt<'tcx>, did: rustc_span::def_id::LocalDefId) -> bool {
+    let mut cur = tcx.parent_module_from_def_id(did);
+    loop {
+        let name = tcx.opt_item_name(cur.to_def_id());
+        if let Some(n) = name {
+            if n.as_str() == "tests" || n.as_str() == "test" {
+                return true;
+            }
+        }
+        if cur.to_def_id().is_crate_root() {
+            return false;
+        }
+        cur = tcx.parent_module_from_def_id(cur.to_local_def_id());
+    }
 }
